@@ -72,13 +72,19 @@ func (s *StarMedoidGrouping) GroupClones(pairs []*ClonePair) []*CloneGroup {
 	// helper to rebuild clusters from union-find parents
 	buildClusters := func() [][]*CodeFragment {
 		groups := make(map[*CodeFragment][]*CodeFragment)
+		// Keep roots in order of first appearance so that the cluster order
+		// (and hence the group IDs) does not depend on map iteration order
+		roots := make([]*CodeFragment, 0)
 		for _, f := range fragments {
 			r := ufFind(f)
+			if _, ok := groups[r]; !ok {
+				roots = append(roots, r)
+			}
 			groups[r] = append(groups[r], f)
 		}
 		out := make([][]*CodeFragment, 0, len(groups))
-		for _, members := range groups {
-			out = append(out, members)
+		for _, r := range roots {
+			out = append(out, groups[r])
 		}
 		return out
 	}
